@@ -12,6 +12,7 @@ FIXED_EXTRA = [
  ('C19', 'PooledModel.sample returns a new array', 'PooledModel.sample returns a broadcast view of its parameter array; through a ReducedPopulationModel that is the wrapper\'s value buffer, so samples returned earlier change when the model is evaluated at other parameters'),
  ('C19', 'compute_individual_parameters does not hand out its value buffer', 'ReducedPopulationModel(Heterogeneous/Pooled).compute_individual_parameters returns a view of the wrapper\'s value buffer: the returned individual parameters change when the model is evaluated at other parameters afterwards'),
  ('C08', 'set_parameter_names keeps the names of fixed parameters', 'ReducedPopulationModel.set_parameter_names on the free parameters renames the fixed ones to "<name> <dim> <dim>": a fixed parameter can no longer be released (or re-fixed) under its name, fix_parameters({name: None}) is silently ignored'),
+ ('C06', 'get_mean_and_std is accurate for means far below zero', 'TruncatedGaussianModel.get_mean_and_std for mu/sigma <= -7 (e.g. mu=-8, sigma=1) reports a negative, infinite or NaN mean and a wrong std although the density is proper there (cancellation in 1 - Phi(-mu/sigma))'),
  ('C17', 'forwards set_n_ids to the population model it wraps', 'a CovariatePopulationModel used on its own (not inside a ComposedPopulationModel) in a HierarchicalLogLikelihood raises "cannot reshape array" for more than one individual'),
 ]
 OPEN = [
